@@ -261,6 +261,7 @@ type c13Env struct {
 	roleDeletedSincePull bool
 	flapSincePull        bool
 	opsSincePull         int
+	sawSkipped           bool
 	sawAnnouncement      bool // history observed >= 1 revoked/removed/deleted/backfill row
 	stop                 bool // history abandoned (inconclusive)
 	rowsByDoc            map[string][]string
@@ -270,6 +271,7 @@ type c13Env struct {
 	rolesDeleted         map[string]bool // roles deleted since the previous pull ...
 	rolesRecreated       map[string]bool // ... and created again since
 	rolesCreated         map[string]bool // roles created (PUT answered 201) since the previous pull
+	roleLost             map[string]bool // roles the user did not hold at some moment since the previous pull
 }
 
 // track is called after every change of the model: it records what happened between two pulls.
@@ -277,8 +279,14 @@ func (e *c13Env) track() {
 	if e.lostCh == nil {
 		e.lostCh, e.rolesDeleted, e.rolesRecreated, e.rolesCreated = map[string]bool{}, map[string]bool{}, map[string]bool{}, map[string]bool{}
 		e.grantChanged, e.grantBase = map[string]bool{}, map[string]string{}
+		e.roleLost = map[string]bool{}
 		for _, c := range e.chans {
 			e.grantBase[c] = e.m.grantKey(c)
+		}
+	}
+	for _, r := range e.m.RoleNames {
+		if len(e.m.roleMemberships(r)) == 0 {
+			e.roleLost[r] = true
 		}
 	}
 	for _, c := range e.chans {
@@ -347,12 +355,11 @@ func (e *c13Env) log(kind, req string, status int, result any) {
 		op.Seq = seq
 	}
 	op.Skip = e.rt.GetDatabase().DbStats.Cache().NumCurrentSeqsSkipped.Value()
-	if n := len(e.ops); op.Skip > 0 && (n == 0 || e.ops[n-1].Skip == 0) {
-		prev := ""
-		if n > 0 {
-			prev = c13JSON(e.ops[n-1])
-		}
-		e.run.Note("history %d: the change cache reports %d skipped sequence(s) after op %s (previous op %s)", e.idx, op.Skip, c13Trunc(c13JSON(op), 300), prev)
+	if op.Skip > 0 && !e.sawSkipped {
+		// rapid rewrites of a principal can overwrite a version before the cache saw it: its sequence stays
+		// "skipped" and resume tokens get a low-sequence part (only in the histories that do not settle)
+		e.sawSkipped = true
+		e.run.Count("histories_with_skipped_sequences", 1)
 	}
 	e.ops = append(e.ops, op)
 }
@@ -994,6 +1001,21 @@ func (e *c13Env) classifyStale(d *c13Doc, last, now *c13Snap) string {
 		}
 		return "channel-held-through-role|role-deleted"
 	}
+	// held only through roles the user lost and holds again now, while the role stopped granting the channel
+	flapped := true
+	for _, c := range held {
+		if last.ChanDirect[c] || len(last.ChanRoles[c]) == 0 {
+			flapped = false
+		}
+		for _, r := range last.ChanRoles[c] {
+			if !e.roleLost[r] || len(e.m.roleMemberships(r)) == 0 || e.m.Roles[r] == nil || !e.m.Roles[r].Exists {
+				flapped = false
+			}
+		}
+	}
+	if flapped {
+		return "channel-held-through-role|role-lost-and-held-again-between-pulls|role-stopped-granting-the-channel-meanwhile"
+	}
 	return ""
 }
 
@@ -1025,7 +1047,8 @@ func (e *c13Env) classifyMissing(d *c13Doc, last, now *c13Snap) string {
 			viaDoc = true
 		}
 	}
-	if all && any && viaDoc {
+	_ = all
+	if any && viaDoc {
 		return "access-through-role-created-since-previous-pull|role-or-its-channel-granted-by-an-older-document"
 	}
 	return ""
@@ -1157,8 +1180,10 @@ func (e *c13Env) judge(obs *c13PullObs, limit int) {
 			sig := fmt.Sprintf("C13|%s|visible-document-missing-after-pull|unclassified|%s|doc=%s|through=%s|limit=%s", e.proto(), prev, kind, c13Through(now.Sources[d.ID]), lim)
 			if shape := e.classifyMissing(d, last, now); shape != "" {
 				sig = fmt.Sprintf("C13|%s|visible-document-missing-after-pull|%s", e.proto(), shape)
+			} else if obs.Resumed["revoked"] {
+				sig = fmt.Sprintf("C13|%s|visible-document-missing-after-pull|paged-pull-resumed-from-the-sequence-of-a-revocation-row", e.proto())
 			}
-			e.violation("replica-equals-visible-set", sig, fmt.Sprintf("history %d: after the pull the user can see %s (rev %s, channels %v, via %v) but the client does not hold it", e.idx, d.ID, want, d.Ch, now.Sources[d.ID]), e.witness(extra()))
+			e.violation("replica-equals-visible-set", sig, fmt.Sprintf("history %d: after the pull the user can see %s (rev %s, channels %v, via %v) but the client does not hold it (rows received for it in this pull: %s)", e.idx, d.ID, want, d.Ch, now.Sources[d.ID], e.rowsFor(d.ID)), e.witness(extra()))
 		case !now.Visible[d.ID] && has:
 			lostVia := "never-visible-at-a-pull"
 			if last != nil && len(last.Sources[d.ID]) > 0 {
@@ -1167,10 +1192,15 @@ func (e *c13Env) judge(obs *c13PullObs, limit int) {
 			sig := fmt.Sprintf("C13|%s|document-left-view-without-removal-or-revocation|unclassified|doc=%s|held-through=%s|limit=%s", e.proto(), kind, lostVia, lim)
 			if shape := e.classifyStale(d, last, now); shape != "" {
 				sig = fmt.Sprintf("C13|%s|document-left-view-without-removal-or-revocation|%s", e.proto(), shape)
+			} else if obs.Resumed["revoked"] {
+				sig = fmt.Sprintf("C13|%s|document-left-view-without-removal-or-revocation|paged-pull-resumed-from-the-sequence-of-a-revocation-row", e.proto())
 			}
-			e.violation("replica-equals-visible-set", sig, fmt.Sprintf("history %d: the user cannot see %s any more (deleted=%v channels=%v user channels=%v) but the client still holds rev %s: it was silently dropped", e.idx, d.ID, d.Exists && d.Deleted, d.Ch, now.UserCh, held), e.witness(extra()))
+			e.violation("replica-equals-visible-set", sig, fmt.Sprintf("history %d: the user cannot see %s any more (deleted=%v channels=%v user channels=%v) but the client still holds rev %s: it was silently dropped (rows received for it in this pull: %s)", e.idx, d.ID, d.Exists && d.Deleted, d.Ch, now.UserCh, held, e.rowsFor(d.ID)), e.witness(extra()))
 		case now.Visible[d.ID] && has && held != want:
 			sig := fmt.Sprintf("C13|%s|stale-revision-held-after-pull|unclassified|doc=%s|through=%s|limit=%s", e.proto(), kind, c13Through(now.Sources[d.ID]), lim)
+			if obs.Resumed["revoked"] {
+				sig = fmt.Sprintf("C13|%s|stale-revision-held-after-pull|paged-pull-resumed-from-the-sequence-of-a-revocation-row", e.proto())
+			}
 			e.violation("replica-equals-visible-set", sig, fmt.Sprintf("history %d: the client holds %s of %s, current is %s", e.idx, held, d.ID, want), e.witness(extra()))
 		}
 	}
@@ -1203,7 +1233,7 @@ func (e *c13Env) judge(obs *c13PullObs, limit int) {
 	cl.Last = now
 	cl.Pulls++
 	e.roleDeletedSincePull, e.flapSincePull, e.opsSincePull = false, false, 0
-	e.lostCh, e.rolesDeleted, e.rolesRecreated, e.rolesCreated, e.grantChanged, e.grantBase = nil, nil, nil, nil, nil, nil
+	e.lostCh, e.rolesDeleted, e.rolesRecreated, e.rolesCreated, e.grantChanged, e.grantBase, e.roleLost = nil, nil, nil, nil, nil, nil, nil
 	e.track()
 }
 
@@ -1395,10 +1425,10 @@ func c13Run(t *testing.T, part string) {
 	if os.Getenv("VERIF_C13_LOG") != "" { // development aid for replaying one history (VERIF_CASE) with the gateway's changes log
 		base.SetUpTestLogging(t, base.LevelTrace, base.KeyChanges)
 	}
-	total := run.N(120, 3000)
+	total := run.N(120, 1500) // per part: 240 / 3000 histories over the two client models
 	nops := 20
 	const perDB = 10
-	const workers = 4
+	workers := run.N(4, 8)
 	first := 0
 	sampleAll := false
 	if i, ok := run.OnlyCase(); ok {
